@@ -381,6 +381,44 @@ pub fn c05_run(opts: &crate::Opts, out: &mut Out) {
         let proofs: Vec<Proof> = members.iter().map(|m| m.2.clone()).collect();
         let mut ts: Vec<Transcript> = members.iter().map(|m| m.0.transcript()).collect();
         out.oracle("C05:base-accepted", verify_caught(&mut ts, &stmts, &proofs, VerifyAction::VerifyOnly) == Ok(true), &format!("batch of 3, n={} t={}", n, t), "honest batch not accepted");
+        // the shape of one member's proof altered: extension-degree tag with d1 resized to match, one L/R pair more or less
+        for pos in 0..3usize {
+            let b = proofs[pos].to_bytes();
+            let mut variants: Vec<(String, Vec<u8>)> = vec![];
+            if t < 6 {
+                let mut c = vec![(t + 1) as u8];
+                c.extend_from_slice(&b[1..1 + 32 * t]);
+                c.extend_from_slice(Scalar::from(7u8).as_bytes());
+                c.extend_from_slice(&b[1 + 32 * t..]);
+                variants.push(("tag+1 with one more d1 scalar".into(), c));
+            }
+            if t > 1 {
+                let mut c = vec![(t - 1) as u8];
+                c.extend_from_slice(&b[1..1 + 32 * (t - 1)]);
+                c.extend_from_slice(&b[1 + 32 * t..]);
+                variants.push(("tag-1 with one d1 scalar fewer".into(), c));
+            }
+            let mut c = b.clone();
+            c.extend_from_slice(&b[b.len() - 64..]);
+            variants.push(("one more L/R pair".into(), c));
+            if b.len() > 1 + 32 * (t + 5) + 64 {
+                variants.push(("one L/R pair fewer".into(), b[..b.len() - 64].to_vec()));
+            }
+            for (what, bytes) in variants {
+                let Ok(alt) = Proof::from_bytes(&bytes) else { continue };
+                let mut pr2 = proofs.clone();
+                pr2[pos] = alt;
+                for action in [VerifyAction::VerifyOnly, VerifyAction::RecoverAndVerify] {
+                    let mut ts: Vec<Transcript> = members.iter().map(|m| m.0.transcript()).collect();
+                    nmut += 1;
+                    classes.insert((n, 3, pos, format!("batch-proof-shape-{}", what)));
+                    match verify_caught(&mut ts, &stmts, &pr2, action) {
+                        Err(()) => out.oracle("C05:no-panic", false, "batch of 3", "verify_batch panicked"),
+                        Ok(ok) => out.oracle("C05:altered-triple-rejected", !ok, &format!("batch of 3 (n={} t={}), proof at position {}: {}, action={:?}", n, t, pos, what, action), "a batch with one proof's shape altered was accepted"),
+                    }
+                }
+            }
+        }
         for pos in 0..3usize {
             for n2 in [1usize, 2, 4, 8, 16, 32, 64] {
                 if n2 == n {
@@ -634,6 +672,34 @@ pub fn c16_run(opts: &crate::Opts, out: &mut Out) {
                     out.oracle("C16:mixed-batch-verdict", ok == (!tamper || action == VerifyAction::RecoverOnly), &key, &format!("verdict {}", ok));
                 }
                 classes.insert((order.len(), order[0], 0, tamper as usize, 98, action_name(action)));
+            }
+        }
+    }
+    // (8) a decoded proof of hostile shape (too few / too many rounds, other d1 length) at every position of a batch
+    // of otherwise valid members, in every mode: an error value, never a panic
+    {
+        let members: Vec<&(Inst, Stmt, Proof)> = vec![&pool[0], &pool[1], &pool[2], &pool[0]]; // 8 bits, degree 2, agg 1/2/4
+        for pos in 0..members.len() {
+            let good_rounds = (members[pos].0.n * members[pos].0.m).ilog2() as usize;
+            for (rounds, tp) in [(1usize, 2usize), (2, 2), (good_rounds - 1, 2), (good_rounds + 1, 2), (good_rounds, 1), (good_rounds, 3), (good_rounds + 3, 6), (40, 2)] {
+                if rounds == good_rounds && tp == 2 || rounds == 0 {
+                    continue;
+                }
+                let bytes = hostile_bytes(tp, rounds, &|_| 0u8, &mut rng);
+                let Ok(bad) = Proof::from_bytes(&bytes) else { continue };
+                let stmts: Vec<Stmt> = members.iter().map(|m| m.1.clone()).collect();
+                let proofs: Vec<Proof> = members.iter().enumerate().map(|(i, m)| if i == pos { bad.clone() } else { m.2.clone() }).collect();
+                for action in ACTIONS {
+                    let mut ts: Vec<Transcript> = members.iter().map(|m| m.0.transcript()).collect();
+                    let r = std::panic::catch_unwind(std::panic::AssertUnwindSafe(|| Proof::verify_batch(&mut ts, &stmts, &proofs, action).is_ok()));
+                    ncalls += 1;
+                    let key = format!("{} batch of 4, hostile proof (rounds {}, degree tag {}) at position {}, action={}", GROUP, rounds, tp, pos, action_name(action));
+                    out.oracle("C16:verify-no-panic", r.is_ok(), &key, "panicked");
+                    if let Ok(ok) = r {
+                        out.oracle("C16:hostile-shape-is-an-error", !ok, &key, "a proof of the wrong shape was not refused");
+                    }
+                    classes.insert((rounds, pos, tp, 0, 94, action_name(action)));
+                }
             }
         }
     }
